@@ -477,6 +477,9 @@ func (w *World) InlineOnly(f *ssa.Function) bool {
 		scan = func(g *ssa.Function) {
 			for _, b := range g.Blocks {
 				for _, in := range b.Instrs {
+					if _, isDbg := in.(*ssa.DebugRef); isDbg {
+						continue // debug references mention every identifier, the callee of a call included
+					}
 					var calleeV ssa.Value
 					if ci, ok := in.(ssa.CallInstruction); ok {
 						calleeV = ci.Common().Value
